@@ -202,6 +202,23 @@ Definition c02_step (w : w2) (e : pev) : w2 :=
 Definition spec_c02 (h : hist) : list tok :=
   w_fail (fold_left c02_step h (mk_w2 [] [] [] [] None 0 false [] [] [])).
 
+(* "after Shutdown returns ... later OnEnd/OnEmit/ForceFlush calls return promptly without effect": a call that BEGAN after a
+   Shutdown (or the destructor) returned never touches a mutex or a condition variable of the processor before it returns *)
+Fixpoint c02_late_walk (shutret : bool) (late : list nat) (h : hist) : bool :=
+  match h with
+  | [] => true
+  | PEv _ (ERetShutdown _) :: h' => c02_late_walk true late h'
+  | PEv _ ERetDestroy :: h' => c02_late_walk true late h'
+  | PEv t ECallFlush :: h' => c02_late_walk shutret (if shutret then t :: late else late) h'
+  | PEv t (ECallOnEnd _) :: h' => c02_late_walk shutret (if shutret then t :: late else late) h'
+  | PEv t (ERetFlush _) :: h' => c02_late_walk shutret (filter (fun x => negb (Nat.eqb x t)) late) h'
+  | PEv t (ERetOnEnd _) :: h' => c02_late_walk shutret (filter (fun x => negb (Nat.eqb x t)) late) h'
+  | PBlock t :: h' => negb (mem t late) && c02_late_walk shutret late h'
+  | _ :: h' => c02_late_walk shutret late h'
+  end.
+Definition c02_late_calls_prompt (h : hist) : list tok :=
+  check (c02_late_walk false [] h) "after_shutdown:call_waits".
+
 (* ------------------------------------------------------------------ C03 *)
 (* exporter calls never overlap; every batch has between 1 and B records *)
 Fixpoint c03_walk (b : nat) (fly : bool) (h : hist) : list tok :=
